@@ -6,7 +6,8 @@ reward = [a = y] / Jaccard({a}, Y) / -|a - y|) and what examples a source denote
 with or without headers, sparse rows, CSV / ARFF / sparse ARFF / LibSVM / Manik text written by the spec's
 canonical writer).  TLC enumerates every case of the bounded domain (all label assignments of <= MaxRows
 examples over <= 3 labels x label kinds x label types given / inferred x label column position x by index /
-by name x take), checks the design invariants (the label is the unique best offered action, ...) and prints
+by name x take x feature values: all distinct, or - dense sources - drawn from the label's own alphabet so that a
+feature left / right of the label column EQUALS the example's label, Supervised.tla FVal / FeatureEqualsLabel), checks the design invariants (the label is the unique best offered action, ...) and prints
 input and expected interactions.  The driver builds the real source from the printed input (Python only
 converts values), constructs SupervisedSimulation three ways (positional, keywords,
 Environments.from_supervised) and compares every interaction with the spec's.  Reads are repeated on ONE object
@@ -17,7 +18,7 @@ Failures that only a later read shows are reported as <kind>:second-read:.. / :a
 <kind>:fanout:second-pipeline:..  The reservoir
 sample is a parameter of the spec: the positions the real Reservoir(take) picks from n items are handed to
 TLC, which checks that they form a sample (predicate IsSample) and defines the expected interactions over it."""
-import json, os
+import json, os, sys
 from .. import tlc, tracecheck
 
 FINISH = dict(level="model_checking",
@@ -35,7 +36,7 @@ def run(ctx):
     if ctx.quick:
         runs = [("quick", {})]
     else:
-        big = {"MaxRows = 3": "MaxRows = 4", "MaxRowsM = 2": "MaxRowsM = 3", "Takes <- TakesQuick": "Takes <- TakesSome",
+        big = {"MaxRows = 3": "MaxRows = 4", "MaxRowsL = 2": "MaxRowsL = 3", "MaxRowsM = 2": "MaxRowsM = 3", "Takes <- TakesQuick": "Takes <- TakesSome",
                "Shapes <- ShapesQuick": "Shapes <- ShapesFull", "XKs <- XKsQuick": "XKs <- XKsAll"}
         runs = [("rows4-" + s, dict(big, **{"Srcs <- AllSrcs": 'Srcs = {%s}' % ", ".join('"%s"' % x for x in grp)}))
                 for s, grp in (("obj", ["xy", "rows"]), ("rowsH", ["rowsH"]), ("sparse", ["sparse"]), ("csv", ["csv", "csvH"]),
@@ -44,6 +45,22 @@ def run(ctx):
         runs.append(("upper3", {'SpellRule = "alt"': 'SpellRule = "upper"', "XKs <- XKsQuick": "XKs <- XKsAll"}))   # every given type in upper case
         runs.append(("rows5", {"MaxRows = 3": "MaxRows = 5", "Takes <- TakesQuick": "Takes <- TakesTwo", "Shapes <- ShapesQuick": "Shapes <- ShapesOne",
                                "Srcs <- AllSrcs": 'Srcs = {"xy", "rowsH", "sparse", "csvH", "arff", "libsvm"}'}))
+    total = 0
+    # exceptions Python cannot raise (raised while a generator is finalized) are counted instead of printed per case
+    unraisable, hook = {}, sys.unraisablehook
+    def count(u):
+        key = "%s: %s in %s" % (type(u.exc_value).__name__, u.exc_value, getattr(u.object, "__qualname__", u.object))
+        unraisable[key] = unraisable.get(key, 0) + 1
+    sys.unraisablehook = count
+    try:
+        total = _runs(ctx, runs, tf)
+    finally:
+        sys.unraisablehook = hook
+    if unraisable: ctx.extra["unraisable_exceptions_while_reading"] = unraisable
+    _finish(ctx, total)
+
+
+def _runs(ctx, runs, tf):
     total = 0
     for name, sub in runs:
         cfg = tracecheck._cfg("Supervised.cfg", sub, ctx.scratch, "sup_%s.cfg" % name)
@@ -64,6 +81,10 @@ def run(ctx):
             replay(ctx, c)
         total += len(cases)
         del cases
+    return total
+
+
+def _finish(ctx, total):
     ctx.traces += total
     ctx.exhaustive = True
     ctx.assumptions += [
@@ -73,6 +94,7 @@ def run(ctx):
         "the order of the action set is only required to be the same in every interaction, not to be a particular order",
         "numeric label types on text that the reader leaves as strings (CSV 'r', LibSVM 'r') and nominal labels in sparse ARFF (reader adds a level '0' by design) are outside the domain",
         "take is explored for sources only (the X, Y overload documents no take); the sample positions come from the real Reservoir and are checked by TLC to be a sample (C09 decides which sample)",
+        "feature values: all distinct (10i+j) for every source; for the dense sources (rows, rows with headers, CSV, ARFF) also drawn from the label's own alphabet (feature j of example i is the example's label when i+j is even, else the next label; ARFF feature attributes then have the label's declared type), for example sets of <= MaxRowsL (quick 2, thorough 3) examples",
         "file syntax is the spec's canonical writer (no quoting, no blanks): syntax variety is C12's subject",
         "every simulation object built positionally is read four times (first, second, abandoned after one interaction, after that); the fan-out is two shuffled pipelines over one from_supervised simulation, built with .filter([Shuffle(0), Shuffle(1)]) because .shuffle(n=2) also appends Finalize (C10's subject); which permutation Shuffle produces is C09's subject"]
 
@@ -160,9 +182,9 @@ def replay(ctx, c):
     from coba.environments import Shuffle
     exp, T, k = prep(c), c["T"], c["case"]
     def report(sig, what, style):
-        return ctx.violation(sig, "%s  [src=%s label=%s label_type=%s label_col=%s take=%s n=%d, built by %s] input=%s" % (
+        return ctx.violation(sig, "%s  [src=%s label=%s label_type=%s label_col=%s take=%s n=%d features=%s, built by %s] input=%s" % (
             what, k["src"], k["lk"], k["lt"], json.dumps(c["inp"]["labelcol"]["v"]) if c["inp"]["labelcol"]["t"] != "none" else None,
-            k["take"], k["n"], style, json.dumps(c["inp"]["lines"] or c["inp"]["rows"] or [c["inp"]["xs"], c["inp"]["ys"]])[:500]),
+            k["take"], k["n"], k.get("fv", "distinct"), style, json.dumps(c["inp"]["lines"] or c["inp"]["rows"] or [c["inp"]["xs"], c["inp"]["ys"]])[:500]),
             dict(case=c["case"], inp={a: b for a, b in c["inp"].items() if not a.startswith("_")}, expected=c["out"], style=style, plan=c["plan"]))
     for style, build in builders(c["inp"]):
         try:
